@@ -1,6 +1,7 @@
 """C19  Repeated queries back off: 1 s, 2 s, 4 s ... capped at one hour."""
 import vlib
 import schedlib
+import mfree
 
 ID = "C19"
 CLAIMED = True
@@ -52,13 +53,21 @@ PARTIAL = ("slice: histories without incoming datagrams, registrations, verify r
 HARNESS_ARGS = ["sim"]
 PER_SHARD = 8
 
-project = schedlib.project
-model_input = schedlib.model_input
+def project(line, raw):
+    return mfree.project(line, raw) if mfree.is_mf(line) else schedlib.project(line, raw)
+
+
+def model_input(line, raw):
+    return mfree.model_input(line, raw) if mfree.is_mf(line) else schedlib.model_input(line, raw)
+
+
 nontrivial = schedlib.nontrivial
 
 
 def generate(rng, tier):
-    return schedlib.generate_histories(rng, tier, ID)
+    # scheduler-slice histories plus the model-free follow-up family (tools/props/mfree.py: at most
+    # three follow-up queries, 500 ms apart, for a found but unresolved instance)
+    return schedlib.generate_histories(rng, tier, ID) + mfree.generate(rng, tier, ["fu"])
 
 
 def shrink(line, still_bad):
